@@ -62,15 +62,16 @@ func main() {
 	arrow := config.GetEth4345Height(config.NETWORK_ID_MAIN_NET)
 	D := new(big.Int).Lsh(big.NewInt(1), 52)
 	var jobs []job
-	treeMode := pairsRelated // quick: batches of two restricted to related headers; thorough: every ordered pair
-	if r.Thorough() {
-		treeMode = pairsAll
-	}
 	addTrees := func(ad adapter, fam string, nmin, nmax, colours int) {
 		for n := nmin; n <= nmax; n++ {
-			mode := treeMode
-			if n >= 6 {
-				mode = pairsRelated // 6-node trees: batches of two restricted to related headers
+			// batches: quick = every ordered pair for trees <=4 nodes, related pairs for 5; thorough = every ordered
+			// pair + every ordered triple for <=4, every ordered pair for 5, related pairs for 6
+			mode := pairsRelated
+			switch {
+			case n <= 4 && r.Thorough():
+				mode = pairsTriples
+			case n <= 4 || (n == 5 && r.Thorough()):
+				mode = pairsAll
 			}
 			for _, sh := range enumShapes(n, colours) {
 				jobs = append(jobs, job{ad, sh, mode, fmt.Sprintf("%s/n=%d/c=%d", fam, n, colours)})
@@ -199,9 +200,9 @@ func main() {
 			r.Require("eth:"+c, "btc:"+c)
 		}
 	}
-	batchNote := "trees: all ordered pairs (<=5 nodes), related pairs (6 nodes); fork pairs: frontier events per fork"
+	batchNote := "trees: all ordered pairs + all ordered triples (<=4 nodes), all ordered pairs (5), related pairs (6); fork pairs: frontier events per fork incl. both orders of the two forks' next headers"
 	if r.Quick() {
-		batchNote = "trees: related pairs (self, parent/child in both orders, grandparent/grandchild); fork pairs: frontier events per fork"
+		batchNote = "trees: all ordered pairs (<=4 nodes), related pairs (5 nodes: self, parent/child both orders, grandparent/grandchild); fork pairs: frontier events per fork incl. both orders of the two forks' next headers"
 	}
 	fam := map[string]any{}
 	for k, v := range tot {
@@ -212,7 +213,7 @@ func main() {
 		"header timestamps are in the past, so the wall-clock future-block test is constant")
 	r.Finish(map[string]any{
 		"rule":                          "every coloured block tree up to the bound x every submission sequence (BFS to fixpoint over the contract storage dump): stored-header/parent/height/TD-sum, canonical index gap-free+parent-linked root..head, head TD maximal, re-submission and rejected submissions change nothing, stored set == model",
-		"bounds":                        map[string]any{"tier": r.Tier, "batch_pairs": batchNote, "eth_tree_nodes_max": r.QT(5, 6), "eth_forkpair_lengths": []int{la, lb}, "btc_tree_nodes_max": r.QT(5, 6), "batch_sizes": []int{1, 2}},
+		"bounds":                        map[string]any{"tier": r.Tier, "batch_pairs": batchNote, "eth_tree_nodes_max": r.QT(5, 6), "eth_forkpair_lengths": []int{la, lb}, "btc_tree_nodes_max": r.QT(5, 6), "batch_sizes": []int{1, 2, r.QT(2, 3)}},
 		"trees":                         len(jobs),
 		"families":                      fam,
 		"states":                        states,
